@@ -147,23 +147,52 @@ def cvc5_check(assertions, timeout_ms, want_model=False):
 
 
 def z3_check(assertions, timeout_ms):
+    """z3 with a hard watchdog: the sequence solver does not always honour its own timeout parameter."""
+    import threading
     s = z3.Solver()
     s.set('timeout', int(timeout_ms))
     s.add(assertions)
-    r = s.check()
+    timer = threading.Timer(timeout_ms / 1000.0 + 0.3, s.ctx.interrupt)
+    timer.daemon = True
+    timer.start()
+    try:
+        r = s.check()
+    except z3.Z3Exception:
+        r = z3.unknown
+    finally:
+        timer.cancel()
     return str(r), s
 
 
+_Z3_RECENT = []          # recent z3 feasibility outcomes (True = answered): decides which solver goes first
+
+
 def feasible(assertions, timeout_ms=5000):
-    """'sat' | 'unsat' | 'unknown' for path feasibility: z3 first (fast on sat), cvc5 when z3 does not answer."""
+    """('sat' | 'unsat' | 'unknown', z3 model or None) for path feasibility.
+    z3 goes first while it keeps answering (fast, and its models guide later decisions); when it mostly times out on
+    the current kind of formula cvc5 goes first."""
     t0 = time.time()
     full = list(assertions) + axioms(assertions)
-    r, zs = z3_check(full, 250)
+    z3_first = sum(1 for x in _Z3_RECENT[-10:] if not x) < 5
     model = None
-    if r == 'sat':
-        model = zs.model()
-    if r == 'unknown':
+    r = 'unknown'
+    if z3_first:
+        r, zs = z3_check(full, 250)
+        _Z3_RECENT.append(r != 'unknown')
+        if r == 'sat':
+            model = zs.model()
+        if r == 'unknown':
+            r, _ = cvc5_check(full, timeout_ms)
+    else:
         r, _ = cvc5_check(full, timeout_ms)
+        if len(_Z3_RECENT) % 50 == 49:
+            _Z3_RECENT.append(True)       # probe z3 again from time to time
+        else:
+            _Z3_RECENT.append(False)
+        if r == 'unknown':
+            r, zs = z3_check(full, 1000)
+            if r == 'sat':
+                model = zs.model()
     STATS.feas += 1
     STATS.solver_s += time.time() - t0
     return r, model
@@ -221,23 +250,66 @@ def _exact_i2s(t):
 
 
 def get_model(full):
-    """Concrete values for the free constants of a satisfiable query: z3 first, cvc5 as fall-back."""
-    zr, zs = z3_check(full, 10000)
-    if zr == 'sat':
-        m = zs.model()
-        out = {}
-        for d in m.decls():
-            if d.arity() == 0:
-                out[d.name()] = _pyval(m[d])
-        out['__z3model__'] = m
-        return out
-    r, cm = cvc5_check(full, 20000, want_model=True)
-    if r == 'sat' and cm is not None:
-        out = {}
-        for k, v in cm.items():
-            out[k] = _parse_smt_value(v)
-        return out
-    return None
+    """Concrete values for the free constants of a satisfiable query: z3 first (2 s), else cvc5's model transferred
+    into z3 by pinning every constant to its value."""
+    z3_ok = sum(1 for x in _Z3_RECENT[-10:] if not x) < 5
+    zr, zs = z3_check(full, 2000 if z3_ok else 300)
+    if zr != 'sat':
+        r, cm = cvc5_check(full, 20000, want_model=True)
+        if r != 'sat' or cm is None:
+            return None
+        consts = {}
+        for a in full:
+            _collect_consts(a, consts)
+        pins = []
+        groups = {}
+        for name, c in consts.items():
+            if name not in cm:
+                continue
+            v = _parse_smt_value(cm[name])
+            srt = c.sort()
+            if srt == z3.StringSort() and isinstance(v, str):
+                pins.append(c == z3.StringVal(v))
+            elif srt == z3.IntSort() and isinstance(v, int) and not isinstance(v, bool):
+                pins.append(c == v)
+            elif srt == z3.BoolSort() and isinstance(v, bool):
+                pins.append(c == v)
+            elif srt.kind() == z3.Z3_UNINTERPRETED_SORT:
+                groups.setdefault((str(srt), cm[name]), []).append(c)
+        reps = {}
+        for (srt, val), cs in groups.items():
+            for c in cs[1:]:
+                pins.append(cs[0] == c)
+            reps.setdefault(srt, []).append(cs[0])
+        for srt, rs in reps.items():
+            if len(rs) > 1:
+                pins.append(z3.Distinct(rs))
+        zr, zs = z3_check(list(full) + pins, 10000)
+        if zr != 'sat':
+            out = {k: _parse_smt_value(v) for k, v in cm.items()}
+            return out
+    m = zs.model()
+    out = {}
+    for d in m.decls():
+        if d.arity() == 0:
+            out[d.name()] = _pyval(m[d])
+    out['__z3model__'] = m
+    return out
+
+
+def _collect_consts(e, acc, seen=None):
+    seen = seen if seen is not None else set()
+    stack = [e]
+    while stack:
+        x = stack.pop()
+        i = x.get_id()
+        if i in seen:
+            continue
+        seen.add(i)
+        if z3.is_const(x) and x.decl().kind() == z3.Z3_OP_UNINTERPRETED:
+            acc[x.decl().name()] = x
+        elif z3.is_app(x):
+            stack.extend(x.children())
 
 
 def _pyval(v):
